@@ -2,3 +2,4 @@ import FinProtoc.Props.C14
 #print axioms FinProtoc.Props.runAll_frame
 #print axioms FinProtoc.Props.driver_independent
 #print axioms FinProtoc.Props.no_model_writes
+#print axioms FinProtoc.Props.no_global_writes
